@@ -122,7 +122,7 @@ func VerifIdleTickLeecher() {
 	verif.Assert("add-torrent", err == nil)
 	lastReceive := e.now // creation counts as the start of the idle period
 	p, _ := dispatch.Verif18AddPeer(ctrl.dispatcher, 1, 3)
-	k := verif.Bound("receive_events", 1, 2)
+	k := verif.Bound("receive_events", 2, 4)
 	for s := 0; s < k; s++ {
 		e.advance()
 		i := verif.Choice("piece", 2) // never the last missing one: stays in progress
